@@ -14,7 +14,14 @@ Inductive case :=
 | CInvalid (all_nan : bool)
 (* a Date made on one runtime, the runtime copied, a setter history run on ONE of the two:
    the history behaves as on a single runtime and the other runtime's Date keeps its time value *)
-| CCopy (t : option Z) (ops : list (Z * list (option Z))) (obs : list (option Z)) (other_after : option Z).
+| CCopy (t : option Z) (ops : list (Z * list (option Z))) (obs : list (option Z)) (other_after : option Z)
+(* a setter one of whose arguments is an object whose valueOf calls ANOTHER setter on the same Date:
+   15.9.5.x step 1 reads "this time value" before the arguments are converted, so the outer call composes from the
+   value the Date had when it was entered; obs = [inner call's result; outer call's result; getTime() afterwards] *)
+| CReent (t : option Z) (outer inner : Z * list (option Z)) (obs : list (option Z))
+(* how many of a setter's arguments are converted (each argument is an object whose valueOf counts its call and
+   returns the given number): 15.9.5.x converts every argument the setter takes, whatever the earlier ones gave *)
+| CConv (t : option Z) (args : list (option Z)) (count : Z).
 
 Definition oz_eqb := option_eqb Z.eqb.
 Definition loz_eqb := list_eqb oz_eqb.
@@ -33,6 +40,14 @@ Definition hist_class (t : option Z) (ops : list (Z * list (option Z))) : Z :=
   if loz_eqb (set_hist (fun id t a => clip (set_model id t a)) t ops) (set_hist set_spec t ops)
   then 1 else 2.
 
+(* builtinDateBeforeSet: nothing is converted when the Date is invalid; the loop returns at the first argument
+   that is not a finite number *)
+Fixpoint conv_upto (args : list (option Z)) : Z :=
+  match args with [] => 0 | None :: _ => 1 | Some _ :: l => 1 + conv_upto l end.
+Definition conv_model (t : option Z) (args : list (option Z)) : Z :=
+  match t with None => 0 | Some _ => conv_upto args end.
+Definition conv_spec (t : option Z) (args : list (option Z)) : Z := Z.of_nat (length args).
+
 Definition verdict (c : case) : Z * Z :=
   match c with
   | CClip t obs => judge oz_eqb obs (ctor_model t) (TimeClip t) 1
@@ -49,6 +64,11 @@ Definition verdict (c : case) : Z * Z :=
       judge loz_eqb obs (dup (set_hist set_model t ops)) (dup (set_hist set_spec t ops))
             (hist_class t ops)
   | CInvalid b => judge Bool.eqb b true true 0
+  | CReent t outer inner obs =>
+      let m := [set_model (fst inner) t (snd inner); set_model (fst outer) t (snd outer); set_model (fst outer) t (snd outer)] in
+      let sp := [set_spec (fst inner) t (snd inner); set_spec (fst outer) t (snd outer); set_spec (fst outer) t (snd outer)] in
+      judge loz_eqb obs m sp (hist_class t [inner; outer])
+  | CConv t args n => judge Z.eqb n (conv_model t args) (conv_spec t args) 4
   | CCopy t ops obs other =>
       judge loz_eqb (other :: obs) (t :: dup (set_hist set_model t ops)) (t :: dup (set_hist set_spec t ops))
             (hist_class t ops)
